@@ -81,9 +81,11 @@ class _GraphIO(collections.UserList["_core.Value"]):
 
     def insert(self, i: int, item: _core.Value) -> None:
         """Insert an input/output to the graph."""
-        # Perform checks first in _set_graph before modifying the data structure
-        self._set_graph(item)
+        # Check the value first, then let the list accept or reject the index (an index that
+        # does not fit a machine word raises OverflowError) before the value is marked as owned
+        self._check_value(item)
         super().insert(i, item)
+        self._set_graph(item)
         self._check_invariance()
 
     def pop(self, i: int = -1) -> _core.Value:
